@@ -120,6 +120,11 @@ def step (d : DState) (ws : List String) : DState × String :=
     match n.toNat? with
     | some n => if n < 1000 then ({ d with active := false }, "e2e ok") else (d, "bad-op")
     | none => (d, "bad-op")
+  | ["e2x", n] =>
+    -- exit matrix with the real Run (state x torrent side x cause x bystander): oracle only
+    match n.toNat? with
+    | some n => if n < 66 then ({ d with active := false }, "e2x ok") else (d, "bad-op")
+    | none => (d, "bad-op")
   | ["huge", n] =>
     -- oracle-only probe of the int64 offset arithmetic on a store with 4 GiB pieces
     match n.toNat? with
